@@ -141,7 +141,7 @@ impl ValidateCmd {
         let mut has_printed = false;
         let mut error_validating = false;
 
-        self.suppress_errors_warnings(validator.storage_hierarchy_result_mut());
+        self.suppress_errors_warnings(validator.storage_root_result_mut());
 
         if self.should_print(validator.storage_root_result()) {
             has_printed = true;
